@@ -56,6 +56,9 @@ class Rule:
     def floor(self, name, n):
         """n must be >= the number counted by hand on the pinned tree."""
         fl = self.ctx.floors.get(self.id + ":" + name)
+        self.ctx.measured[self.id + ":" + name] = n
+        if fl is None and self.ctx.calibrating:
+            return True
         if fl is None:
             raise build.MachineryError("no floor recorded for %s:%s (measured %d)" % (self.id, name, n))
         if n < fl:
@@ -83,6 +86,8 @@ class Ctx:
         self.assumptions = []
         self.trusted = []
         self.explanation = ""
+        self.measured = {}
+        self.calibrating = bool(os.environ.get("VERIF_CALIBRATE"))
         with open(FLOORS) as fh:
             self.floors = json.load(fh)
         with open(KNOWN) as fh:
@@ -164,6 +169,7 @@ class Ctx:
                 "rules": [{"id": r.id, "text": r.text, "instances": r.obligations, "discharged": r.discharged,
                            "analysed": r.analysed} for r in self.rules],
                 "fact_kinds": self.kinds,
+                "instance_counts": self.measured,
                 "known_findings_open": sorted(seen_known),
                 "exhaustive": False,
             },
